@@ -44,6 +44,8 @@ def specs(tier):
         out.append({'mech': 'adagrid', 'eps': eps, 'delta': delta, 'targets': [], 'split': None, 'threshold': 5.0, 'sizes': [2] * 7})
         # budget fractions that are each <= 1 but do not sum to 1 (the mechanism normalises them)
         out.append({'mech': 'adagrid', 'eps': eps, 'delta': delta, 'targets': [], 'split': [0.5, 0.25, 0.5], 'threshold': 5.0})
+        # the noise parameter in another capitalisation (anything but exactly 'laplace' selects the Gaussian path of the unchanged code)
+        out.append({'mech': 'mwem', 'eps': eps, 'delta': delta, 'noise': 'Laplace', 'bounded': False, 'rounds': 2, 'alpha': 0.9})
         # MWEM with a workload that leaves attribute C unmentioned
         out.append({'mech': 'mwem', 'eps': eps, 'delta': delta, 'noise': 'gaussian', 'bounded': False, 'rounds': 2, 'alpha': 0.9, 'workload': [['A', 'B']]})
         for targets, split, thr in itertools.product([[], ['C']], [None, [0.1, 0.1, 0.8]], [5.0, 0.5]):
